@@ -62,6 +62,15 @@ class PPInterp(Interp):
     `&v` to the pointee when the pointer variable v currently points to a struct object (it conflates
     `&struct_var` with `&pointer_var`).  Here `&v` of a pointer-typed lvalue is a reference to v."""
 
+    def __init__(self, program, unit, cfg=None):
+        Interp.__init__(self, program, unit, cfg)
+        # the contents of the compiler's hash tables (macro table, include-guard memo, `#pragma once` table ...) are facts about the program being
+        # compiled, not about the function under analysis: unless a rule says otherwise a lookup may find an entry or not.  (Left alone the
+        # engine would run hashmap_get on the zero-initialised table and silently decide every rule for "no macro is defined".)
+        for f in TABLE_LOOKUPS:
+            if f not in self.cut and f not in self.models and f not in self.opaque_fns:
+                self.cut[f] = h_table_lookup(f)
+
     def e_UnaryOperator(self, n, env):
         if n.opcode == '&':
             sub = n.inner[0]
@@ -69,6 +78,22 @@ class PPInterp(Interp):
             if t.endswith('*') and sub.strip().kind in ('DeclRefExpr', 'MemberExpr'):
                 return _Ref(self.place(sub, env))
         return Interp.e_UnaryOperator(self, n, env)
+
+
+TABLE_LOOKUPS = ('hashmap_get', 'hashmap_get2')
+
+
+def h_table_lookup(name):
+    """cut for a hash table lookup: an entry or NULL, one boolean per call; event ('call', name, args, line, result, table text)"""
+    def h(it, ctx, n, args):
+        a = n.args()
+        table = a[0].src() if a else '?'
+        o = Obj(None, lazy=True, label='entry(%s)' % table)
+        o.meta['table'] = table
+        v = View(Cell([0, o], ctx.fresh('%s(%s)' % (name, table)), names={0: 'NULL'}))
+        ctx.emit('call', name, args, n.line, v, table)
+        return v
+    return h
 
 
 def register_nested_enums(u):
